@@ -54,6 +54,10 @@ pub struct FaultPlan {
     pub random_until_call: u64,
     /// capture a crash image when the device-call counter reaches this value
     pub crash_at_call: Option<u64>,
+    /// every write issued while the virtual monotonic clock is inside [from, to) fails before
+    /// anything reaches the device (a device that is unavailable for a while and then heals)
+    #[serde(default)]
+    pub write_fail_window_ns: Option<(u64, u64)>,
 }
 
 #[derive(Clone, Copy, Debug, Serialize, Deserialize, PartialEq, Eq)]
@@ -311,6 +315,12 @@ impl SimDisk {
                 }
         }) {
             return Some(s.plan.at_call[pos].1);
+        }
+        if let (DevOp::Write, Some((from, to))) = (op, s.plan.write_fail_window_ns) {
+            let now = sim.now_mono();
+            if now >= from && now < to {
+                return Some(FaultKind::WriteFailBefore);
+            }
         }
         if s.plan.dead_from_call.is_some_and(|d| call >= d) {
             return match op {
